@@ -121,9 +121,54 @@ def run_cli(path, depth):
     return [(int(m.group(1)), m.group(2)) for m in H_RE.finditer(html)]
 
 
+def eval_reuse(ctx, case):
+    """ONE parser object (create_md_parser) rendering several texts one after the other: anchors are unique within each document, not across them."""
+    from docutils import nodes
+    from docutils.frontend import get_default_settings
+    from docutils.utils import new_document
+
+    from myst_parser.config.main import MdParserConfig
+    from myst_parser.mdit_to_docutils.base import DocutilsRenderer
+    from myst_parser.parsers.docutils_ import Parser
+    from myst_parser.parsers.mdit import create_md_parser
+
+    depth = case["depth"]
+    md = create_md_parser(MdParserConfig(heading_anchors=depth), DocutilsRenderer)
+    for k, heads_ in enumerate(case["texts"]):
+        text = build({"heads": heads_})
+        settings = get_default_settings(Parser)
+        settings.warning_stream = io.StringIO()
+        settings.halt_level = 5
+        doc = new_document(os.path.join(TMP, f"reuse{k}.md"), settings=settings)
+        md.options["document"] = doc
+        try:
+            md.render(text)
+        except Exception as e:  # noqa: BLE001
+            sig = core.exc_signature(e)
+            ctx.violation(f"reuse:raises:{sig['type']}:{sig['myst']}", f"render number {k + 1} with the same parser raised {sig['type']}: {sig['msg']}", case, {"text": text, **sig})
+            return
+        tt = token_titles(text, depth)
+        heads = [n for n in doc.findall(lambda n: isinstance(n, (nodes.section, nodes.rubric)))]
+        if len(heads) != len(tt):
+            ctx.count("case_skipped_heading_count_mismatch")
+            continue
+        obs = [h.get("slug") for (lvl, _), h in zip(tt, heads) if lvl <= depth]
+        exp = uniq([slug0(t) for lvl, t in tt if lvl <= depth])
+        ctx.count("reuse_renders_compared")
+        if obs != exp and obs != uniq([slug0(t, strip=False) for lvl, t in tt if lvl <= depth]):
+            ctx.violation("reuse:anchors-depend-on-earlier-render", f"text number {k + 1} rendered with the same parser object gets anchors {obs}; on its own (and by the rule) {exp}", case, {"text": text, "previous_texts": k})
+            return
+        slugs = getattr(doc, "myst_slugs", {})
+        if set(slugs) - set(obs):
+            ctx.violation("reuse:slug-table-keeps-earlier-documents", f"document.myst_slugs of text number {k + 1} contains {sorted(set(slugs) - set(obs))[:5]}, which are not anchors of this document", case, {"text": text})
+            return
+
+
 def eval_case(ctx, case):
     from docutils import nodes
 
+    if case.get("kind") == "reuse":
+        return eval_reuse(ctx, case)
     text = build(case)
     depth = case["depth"]
     func = case.get("func")
@@ -334,6 +379,11 @@ def run_shard(ctx):
     ctx.enumerated(max(0, n - (len(TITLES) // ctx.nshards + 1)))
     ctx.subrun("exhaustive_title_sequences", exhaustive=complete, max_length=maxlen, titles=len(TITLES), cases=n)
     ctx.sample({"kind": "seq", "heads": [[1, "a", "top"], [2, "a", "top"], [1, "a-1", "top"]], "depth": 2})
+    for i in range(40 if quick else 2000):
+        pool = [R.choice(TITLES[:6]) for _ in range(3)]
+        case = {"kind": "reuse", "depth": R.choice([2, 3, 6]), "texts": [[[R.randint(1, 3), R.choice(pool), "top"] for _ in range(R.randint(1, 4))] for _ in range(R.randint(2, 4))]}
+        eval_case(ctx, case)
+        ctx.case(("reuse", repr(case)), True)
     n_r = 800 if quick else 40000
     for i in range(n_r):
         heads = []
